@@ -4,6 +4,7 @@ import (
 	"fmt"
 	"go/constant"
 	"go/types"
+	"regexp"
 	"strings"
 )
 
@@ -570,84 +571,131 @@ func walkExpr(e Expr, f func(Expr)) {
 	}
 }
 
-// specDefs renders the used spec functions (define-fun-rec encoding, or UF + unfolding axioms).
-func (fc *FnCtx) specDefs(axiomEnc bool) []string {
-	var out []string
-	var names []string
-	for _, n := range fc.e.cs.SpecOrder {
-		if fc.specsUsed[n] {
-			names = append(names, n)
+// renderSpecs evaluates the bodies of all used spec functions once (after VC generation).
+type renderedSpec struct {
+	name, sig, ret, body, params, call string
+	deps []string
+}
+
+func (fc *FnCtx) renderSpecs() {
+	fc.rspecs = map[string]*renderedSpec{}
+	// evaluating bodies may pull in further specs: iterate to a fixpoint
+	for {
+		progress := false
+		for _, n := range fc.e.cs.SpecOrder {
+			if !fc.specsUsed[n] || fc.rspecs[n] != nil {
+				continue
+			}
+			progress = true
+			sp := fc.e.cs.Specs[n]
+			var ps, psig, pcall []string
+			bound := map[string]Val{}
+			for _, p := range sp.Params {
+				switch p.Type {
+				case "seq", "string":
+					a, o, l := "p."+p.Name+".arr", "p."+p.Name+".off", "p."+p.Name+".len"
+					ps = append(ps, fmt.Sprintf("(%s %s) (%s Int) (%s Int)", a, SArr, o, l))
+					psig = append(psig, SArr, SInt, SInt)
+					pcall = append(pcall, a, o, l)
+					bound[p.Name] = Val{K: KStr, T: types.Typ[types.String], C: []string{a, o, l}}
+				case "bool":
+					ps = append(ps, fmt.Sprintf("(p.%s Bool)", p.Name))
+					psig = append(psig, SBool)
+					pcall = append(pcall, "p."+p.Name)
+					bound[p.Name] = boolVal("p." + p.Name)
+				default:
+					ps = append(ps, fmt.Sprintf("(p.%s Int)", p.Name))
+					psig = append(psig, SInt)
+					pcall = append(pcall, "p."+p.Name)
+					bound[p.Name] = intVal("p." + p.Name)
+				}
+			}
+			ret := SInt
+			if sp.Ret == "bool" {
+				ret = SBool
+			}
+			r := &renderedSpec{name: n, sig: strings.Join(psig, " "), ret: ret, params: strings.Join(ps, " "), call: strings.Join(pcall, " ")}
+			if !sp.Uninter && !fc.opaque(n) {
+				env := &Env{fc: fc, heap: &fc.entry, old: &fc.entry, bound: bound,
+					lookup: func(string) (Val, bool) { return Val{}, false }}
+				v := fc.evalExpr(sp.Body, env)
+				r.body = v.S()
+				for _, m := range specSymRe.FindAllString(r.body, -1) {
+					r.deps = append(r.deps, m)
+				}
+			}
+			fc.rspecs[n] = r
+		}
+		if !progress {
+			break
 		}
 	}
-	if len(names) == 0 {
+}
+
+var specSymRe = regexp.MustCompile(`spec\.[A-Za-z0-9_.]+`)
+
+// specText renders the definitions of the spec functions whose symbols occur in `text` (transitively).
+func (fc *FnCtx) specText(text string, axiomEnc bool) []string {
+	need := map[string]bool{}
+	var work []string
+	for _, m := range specSymRe.FindAllString(text, -1) {
+		if !need[m] {
+			need[m] = true
+			work = append(work, m)
+		}
+	}
+	bySym := map[string]*renderedSpec{}
+	for n, r := range fc.rspecs {
+		bySym[specSym(n)] = r
+	}
+	for len(work) > 0 {
+		x := work[len(work)-1]
+		work = work[:len(work)-1]
+		if r := bySym[x]; r != nil {
+			for _, d := range r.deps {
+				if !need[d] {
+					need[d] = true
+					work = append(work, d)
+				}
+			}
+		}
+	}
+	var rs []*renderedSpec
+	for _, n := range fc.e.cs.SpecOrder {
+		if r := fc.rspecs[n]; r != nil && need[specSym(n)] {
+			rs = append(rs, r)
+		}
+	}
+	var out []string
+	if len(rs) == 0 {
 		return nil
 	}
-	type rendered struct{ sig, ret, body, params, call string }
-	var rs []rendered
-	for _, n := range names {
-		sp := fc.e.cs.Specs[n]
-		var ps, psig, pcall []string
-		bound := map[string]Val{}
-		for _, p := range sp.Params {
-			switch p.Type {
-			case "seq", "string":
-				a, o, l := "p."+p.Name+".arr", "p."+p.Name+".off", "p."+p.Name+".len"
-				ps = append(ps, fmt.Sprintf("(%s %s) (%s Int) (%s Int)", a, SArr, o, l))
-				psig = append(psig, SArr, SInt, SInt)
-				pcall = append(pcall, a, o, l)
-				bound[p.Name] = Val{K: KStr, T: types.Typ[types.String], C: []string{a, o, l}}
-			case "bool":
-				ps = append(ps, fmt.Sprintf("(p.%s Bool)", p.Name))
-				psig = append(psig, SBool)
-				pcall = append(pcall, "p."+p.Name)
-				bound[p.Name] = boolVal("p." + p.Name)
-			default:
-				ps = append(ps, fmt.Sprintf("(p.%s Int)", p.Name))
-				psig = append(psig, SInt)
-				pcall = append(pcall, "p."+p.Name)
-				bound[p.Name] = intVal("p." + p.Name)
-			}
-		}
-		ret := SInt
-		if sp.Ret == "bool" {
-			ret = SBool
-		}
-		r := rendered{sig: strings.Join(psig, " "), ret: ret, params: strings.Join(ps, " "), call: strings.Join(pcall, " ")}
-		if !sp.Uninter && !fc.opaque(n) {
-			env := &Env{fc: fc, heap: &fc.entry, old: &fc.entry, bound: bound,
-				lookup: func(string) (Val, bool) { return Val{}, false }}
-			v := fc.evalExpr(sp.Body, env)
-			r.body = v.S()
-		}
-		rs = append(rs, r)
-	}
 	if axiomEnc {
-		for i, n := range names {
-			out = append(out, fmt.Sprintf("(declare-fun %s (%s) %s)", specSym(n), rs[i].sig, rs[i].ret))
+		for _, r := range rs {
+			out = append(out, fmt.Sprintf("(declare-fun %s (%s) %s)", specSym(r.name), r.sig, r.ret))
 		}
-		for i, n := range names {
-			if rs[i].body == "" {
+		for _, r := range rs {
+			if r.body == "" {
 				continue
 			}
-			call := "(" + specSym(n) + " " + rs[i].call + ")"
-			if rs[i].call == "" {
-				out = append(out, fmt.Sprintf("(assert (= %s %s))", specSym(n), rs[i].body))
+			call := "(" + specSym(r.name) + " " + r.call + ")"
+			if r.call == "" {
+				out = append(out, fmt.Sprintf("(assert (= %s %s))", specSym(r.name), r.body))
 				continue
 			}
-			out = append(out, fmt.Sprintf("(assert (forall (%s) (! (= %s %s) :pattern (%s))))", rs[i].params, call, rs[i].body, call))
+			out = append(out, fmt.Sprintf("(assert (forall (%s) (! (= %s %s) :pattern (%s))))", r.params, call, r.body, call))
 		}
 		return out
 	}
-	var uninter, sigs, bodies []string
-	for i, n := range names {
-		if rs[i].body == "" {
-			uninter = append(uninter, fmt.Sprintf("(declare-fun %s (%s) %s)", specSym(n), rs[i].sig, rs[i].ret))
+	var sigs, bodies []string
+	for _, r := range rs {
+		if r.body == "" {
+			out = append(out, fmt.Sprintf("(declare-fun %s (%s) %s)", specSym(r.name), r.sig, r.ret))
 			continue
 		}
-		sigs = append(sigs, fmt.Sprintf("(%s (%s) %s)", specSym(n), rs[i].params, rs[i].ret))
-		bodies = append(bodies, rs[i].body)
+		sigs = append(sigs, fmt.Sprintf("(%s (%s) %s)", specSym(r.name), r.params, r.ret))
+		bodies = append(bodies, r.body)
 	}
-	out = append(out, uninter...)
 	if len(sigs) > 0 {
 		out = append(out, fmt.Sprintf("(define-funs-rec (%s) (%s))", strings.Join(sigs, " "), strings.Join(bodies, " ")))
 	}
